@@ -490,8 +490,35 @@ func (t TempNameV) String() string { return "name of the temporary file" }
 type RenderedV struct {
 	Buf       *Obj
 	Exec      ssa.Instruction
-	Formatted bool // passed through go/format.Source
+	Formatted bool         // passed through go/format.Source
+	Quote     *QuoteRender // rendered by hand with strconv.Quote instead of a template
 }
+
+// QuoteRender describes a file rendered by hand into a buffer: constant text, the variable
+// name, and one strconv.Quote'd item per word.  Text is the equivalent template (what the
+// template rules then judge), Words the slice the items come from, Var the name written.
+type QuoteRender struct {
+	Text  string
+	Words *TokensV
+	Var   AV
+	Site  ssa.Instruction
+}
+
+// BufPartsV is what a bytes.Buffer of the generator holds so far, piece by piece (constant
+// text, values, ItemsV for a loop of quoted words).
+type BufPartsV struct{ Parts []AV }
+
+func (b BufPartsV) String() string { return fmt.Sprintf("buffer%v", b.Parts) }
+
+// ItemsV: one strconv.Quote(w) followed by a comma for every element w of Toks (the empty
+// ones left out if SkipEmpty).
+type ItemsV struct {
+	Toks      *TokensV
+	SkipEmpty bool
+	Site      ssa.Instruction
+}
+
+func (i ItemsV) String() string { return fmt.Sprintf("quoted items of %v", i.Toks) }
 
 func (r RenderedV) String() string { return "rendered template" }
 
